@@ -432,6 +432,103 @@ def generateOutcome (cts : List TargetDef) (kinds : List DeclKind) (t : String) 
       .crash "jinja2 UndefinedError / AttributeError: type has no attribute 'cpp'"
     else .ok ()
 
+/-! ## one `API` object, several configured contexts, any sequence of requests
+
+The generator instances belong to the `API` object and are shared by all contexts made from it: `Target.configure` hands each
+generator of a target its section of the *requesting* context's configuration, after checking that every one of them has a
+section. `ConfiguredContext.parse` does that for every configured target (in registry order, stopping at the first refusal — the
+targets before it stay configured for this context), `GenerateContext.generate` does it again for the requested target before
+generating, because another context may have parsed in between. -/
+
+/-- generator key ↦ index of the context whose section the generator instance holds (was configured with last) -/
+abbrev Held := List (String × Nat)
+
+def heldBy (h : Held) (g : String) : Option Nat := (h.find? (fun p => p.1 == g)).map (·.2)
+
+def hold (h : Held) (gs : List String) (c : Nat) : Held := gs.map (fun g => (g, c)) ++ h
+
+/-- `Target.configure(generate section of context c)`: first every generator of the target is looked up in the section — the
+first one without its own section is named by the refusal and nothing is configured —, then all of them are configured -/
+def targetConfigure (set : List String) (c : Nat) (d : TargetDef) (h : Held) : Except String Held :=
+  match d.generators.find? (fun g => !set.contains g) with
+  | some g => .error ("generate." ++ g)
+  | none => .ok (hold h d.generators c)
+
+/-- `for target in configured_targets: target.configure(…)` -/
+def configureAll (set : List String) (c : Nat) : List TargetDef → Held → Held × Option String
+  | [], h => (h, none)
+  | d :: ds, h =>
+    match targetConfigure set c d h with
+    | .error k => (h, some k)
+    | .ok h' => configureAll set c ds h'
+
+structure ApiState where
+  held : Held := []
+  /-- contexts that hold a `GenerateContext` (their last `parse` succeeded and they were not made anew since) -/
+  parsed : List Nat := []
+deriving Repr
+
+inductive Req
+  | configure (c : Nat)                 -- the context is made anew from the same settings (a new configuration object)
+  | parse (c : Nat)
+  | generate (c : Nat) (t : String)     -- on the `GenerateContext` the last successful `parse` of context `c` returned
+deriving Repr, DecidableEq
+
+structure Answer where
+  /-- `none`: nothing to ask (`configure` always succeeds here; `generate` without a `GenerateContext` is not a request) -/
+  outcome : Option (Outcome Unit) := none
+  /-- the configuration key the refusal names -/
+  named : Option String := none
+  /-- for a `generate` that ran: the contexts whose sections the generators of the target held while generating -/
+  used : List Nat := []
+deriving Repr
+
+def Outcome.void {α} : Outcome α → Outcome Unit
+  | .ok _ => .ok ()
+  | .app c => .app c
+  | .crash s => .crash s
+
+def ctxSet (ctxs : List GenSet) (c : Nat) : GenSet := (ctxs[c]?).getD none
+
+def parseStep (ctxs : List GenSet) (c : Nat) (s : ApiState) : Answer × ApiState :=
+  match ctxSet ctxs c with
+  | none => ({ outcome := some (.app 141), named := some "generate" }, s)
+  | some set =>
+    match configureAll set c (configuredTargets set) s.held with
+    | (h, some k) => ({ outcome := some (.app 141), named := some k }, { s with held := h })
+    | (h, none) => ({ outcome := some (.ok ()) }, { held := h, parsed := c :: s.parsed })
+
+def generateStep (ctxs : List GenSet) (kinds : List DeclKind) (c : Nat) (t : String) (s : ApiState) : Answer × ApiState :=
+  if !s.parsed.contains c then ({}, s) else
+  match ctxSet ctxs c with
+  | none => ({}, s)                                                   -- a context that parsed has a `generate` section
+  | some set =>
+    match targetTable.find? (fun d => d.key == t) with
+    | none => ({ outcome := some (.app 120) }, s)
+    | some d =>
+      if !set.contains t then ({ outcome := some (.app 141), named := some ("generate." ++ t) }, s)
+      else match targetConfigure set c d s.held with
+        | .error k => ({ outcome := some (.app 141), named := some k }, s)
+        | .ok h =>
+          let s' := { s with held := h }
+          if !set.contains "cpp" && needsCpp (configuredTargets set) kinds d then
+            ({ outcome := some (.crash "jinja2 UndefinedError / AttributeError: type has no attribute 'cpp'") }, s')
+          else ({ outcome := some (.ok ()), used := d.generators.filterMap (heldBy h) }, s')
+
+def step (ctxs : List GenSet) (kinds : List DeclKind) : Req → ApiState → Answer × ApiState
+  | .configure c, s => ({}, { s with parsed := s.parsed.filter (· != c) })
+  | .parse c, s => parseStep ctxs c s
+  | .generate c t, s => generateStep ctxs kinds c t s
+
+def runReqs (ctxs : List GenSet) (kinds : List DeclKind) : List Req → ApiState → List Answer
+  | [], _ => []
+  | r :: rs, s => (step ctxs kinds r s).1 :: runReqs ctxs kinds rs (step ctxs kinds r s).2
+
+/-- the configuration key the refusal of `parse` names: the first generator without a section of the first configured target
+that has one -/
+def parseMissing (set : List String) : Option String :=
+  ((configuredTargets set).flatMap (·.generators)).find? (fun g => !set.contains g)
+
 /-! ## domain clauses (one per known finding) -/
 
 /-- inputs on which `API.configure` is known to leave with an exception that is not an `ApplicationException`
